@@ -6,12 +6,13 @@
 (* set Graph!ClosedCFG, enumerated here shard by shard), and the contract   *)
 (* layer - NeverFails (C02), Structured (C03), WellFormed (C04), Conserved  *)
 (* (C05), TablesAgree (C06) - is evaluated on the result of every stage.    *)
-(* Driver choices the code makes in an order that is not part of any        *)
-(* contract (which loop / region next) are taken in rank order.            *)
-(* The link to the code is the per-primitive conformance checked by         *)
-(* TraceRestructure.tla on recorded behaviours (same Impl operators).       *)
+(* The drivers are Pipeline.tla's: loops in the emission order of the       *)
+(* vendored Tarjan over the dict order, sub-regions in iter_subregions      *)
+(* order - the model checked here is the one whose results equal the real   *)
+(* code's, names included (TracePipeline.tla), on the same exhaustive       *)
+(* domain; per-primitive conformance is TraceRestructure.tla's.             *)
 (***************************************************************************)
-EXTENDS Impl, Props, Json, IOUtils
+EXTENDS Pipeline, Props, Json, IOUtils
 
 N     == atoi(IOEnv.N)
 Shard == atoi(IOEnv.SHARD)          \* index into the successor choices of the entry node
@@ -29,40 +30,9 @@ H0of(gg) == [n \in {ToString(u) : u \in Nodes} |->
                [k |-> "basic", jt |-> [j \in 1..Len(gg[u]) |-> ToString(gg[u][j])], be |-> <<>>, up |-> Root]]
 OrigOf(gg) == [n \in {ToString(u) : u \in Nodes} |-> LET u == CHOOSE u \in Nodes : ToString(u) = n IN [j \in 1..Len(gg[u]) |-> ToString(gg[u][j])]]
 
-\* ---- pipeline drivers ----
-Loops(H, l) ==
-  LET A == Adj(H, l)
-      reach == [u \in DOMAIN A |-> GrowA(A, A[u], A[u], "")]
-      scc(u) == {u} \cup {v \in DOMAIN A : v \in reach[u] /\ u \in reach[v]}
-  IN {scc(u) : u \in {u \in DOMAIN A : Cardinality(scc(u)) > 1 \/ u \in A[u]}}
-MinRank(S) == CHOOSE x \in S : \A y \in S : Rank[x] <= Rank[y]
-OrderSets(SS) == SetToSortSeq(SS, LAMBDA a, b : Rank[MinRank(a)] < Rank[MinRank(b)])
-
-RECURSIVE LoopStage(_, _, _), LoopFold(_, _, _, _), RegionFoldL(_, _, _, _)
-LoopFold(st, l, loops, j) ==
-  IF j > Len(loops) \/ st.fail THEN st
-  ELSE LET r == LoopRotate(st.H, st.ng, l, loops[j], Rank) IN
-       IF r.fail \/ HasFail(r.H) THEN [H |-> r.H, ng |-> r.ng, fail |-> TRUE]
-       ELSE LET x == Extract(r.H, r.ng, l, r.loop, "loop", Rank)
-            IN LoopFold([H |-> x.H, ng |-> x.ng, fail |-> ~x.ok], l, loops, j + 1)
-RegionFoldL(st, regs, j, fuel) == IF j > Len(regs) \/ st.fail THEN st ELSE RegionFoldL(LoopStage(st, regs[j], fuel), regs, j + 1, fuel)
-LoopStage(st, l, fuel) ==
-  IF fuel = 0 THEN [st EXCEPT !.fail = TRUE]
-  ELSE LET s1 == LoopFold(st, l, OrderSets(Loops(st.H, l)), 1)
-           regs == Sorted({n \in Level(s1.H, l) : s1.H[n].k = "region"}, Rank)
-       IN IF s1.fail THEN s1 ELSE RegionFoldL(s1, regs, 1, fuel - 1)
-
-RECURSIVE BranchStage(_, _, _), RegionFoldB(_, _, _, _)
-RegionFoldB(st, regs, j, fuel) == IF j > Len(regs) \/ st.fail THEN st ELSE RegionFoldB(BranchStage(st, regs[j], fuel), regs, j + 1, fuel)
-BranchStage(st, l, fuel) ==
-  IF fuel = 0 THEN [st EXCEPT !.fail = TRUE]
-  ELSE LET s1 == BranchPass(st.H, st.ng, l, Rank)
-           regs == Sorted({n \in Level(s1.H, l) : s1.H[n].k = "region"}, Rank)
-       IN IF s1.fail THEN [H |-> s1.H, ng |-> s1.ng, fail |-> TRUE] ELSE RegionFoldB([H |-> s1.H, ng |-> s1.ng, fail |-> FALSE], regs, 1, fuel - 1)
-
-Closed(gg) == LET r == JoinReturns(H0of(gg), Ng0, Root, Sorted(DOMAIN H0of(gg), Rank)) IN [H |-> r.H, ng |-> r.ng, fail |-> FALSE]
-Looped(gg) == LoopStage(Closed(gg), Root, 12)
-Branched(gg) == BranchStage(Looped(gg), Root, 12)
+\* ---- pipeline drivers: Pipeline.tla (dict order, Tarjan emission order, iter_subregions order as in the code) ----
+Order0 == [i \in 1..N |-> ToString(i - 1)]
+Closed(gg) == RunClosed(H0of(gg), Order0, Root, Ng0)
 
 \* ---- contract layer on the result of every stage ----
 St(h) == [H |-> h, root |-> Root, dup |-> <<>>]
@@ -75,8 +45,8 @@ StageBad(gg, st, nm, final) ==
        \cup (IF final THEN {"C03/" \o c : c \in FailedST(CaseOf(gg), St(st.H))} ELSE {})
 Verdict(gg) ==
   LET a == Closed(gg)
-      b == LoopStage(a, Root, 12)
-      c == BranchStage(b, Root, 12)
+      b == LoopsFrom(a, Root, Rank)
+      c == BranchesFrom(b, Root, Rank)
   IN StageBad(gg, a, "closed", FALSE)
      \cup (IF b.fail THEN StageBad(gg, b, "loops", FALSE)
            ELSE StageBad(gg, b, "loops", FALSE) \cup StageBad(gg, c, "branches", TRUE))
